@@ -154,6 +154,10 @@ def run(ctx):
         ctx.violation(dict(stage="coq", kind="proof obligation or audit failed", issues=r["issues"]), has_input=False)
     nbase = 14 if ctx.quick else 150
     bases = [sign(gen_request(rng)) for _ in range(nbase)]
+    # signed-payload uploads are always among the bases (with and without a body)
+    for body in (b"signed payload bytes", b""):
+        bases.append(sign(dict(method="PUT", path="/my-bucket/signed-upload", query=[], headers=[("host", "s3.example.com"), ("x-amz-date", ISO)],
+                               body=body, mode="signed", kind="put")))
     # the AWS documentation GET example (non-vacuity of the reference signer)
     ex = sign(dict(method="GET", path="/test.txt", query=[], headers=[("host", "examplebucket.s3.amazonaws.com"), ("range", "bytes=0-9"),
                    ("x-amz-date", "20130524T000000Z")], body=b"", mode="signed", kind="get"), iso="20130524T000000Z")
@@ -250,6 +254,15 @@ def run(ctx):
         if rq["mode"] == "signed" and rq["body"] and rq["method"] == "PUT":
             bb = bytearray(rq["body"]); k = rng.below(len(bb)); bb[k] ^= 1
             add("mut-body", rq, "reject", body=bytes(bb), stream=rng.chance(1, 2))
+        if rq["mode"] == "signed" and rq["method"] == "PUT":
+            # the same requests without a Content-Length header (chunked transfer / HTTP/2): the body is still what was signed
+            nocl = [h for h in rq["headers"] if h[0] != "content-length"]
+            if rq["body"]:
+                add("valid-no-content-length", rq, "accept" if spec_ok else "dup", headers=nocl)
+                bb = bytearray(rq["body"]); k = rng.below(len(bb)); bb[k] ^= 1
+                add("mut-body-no-content-length", rq, "reject", headers=nocl, body=bytes(bb))
+            else:
+                add("mut-body-added-no-content-length", rq, "reject", headers=nocl, body=b"smuggled in")
         other = sign(dict(rq, headers=[h for h in rq["headers"] if h[0] not in ("x-amz-content-sha256", "content-length", "x-amz-decoded-content-length", "content-encoding")]),
                      secret="another/secret/key/0000000000000000000000")
         add("mut-secret", rq, "reject", authorization=other["authorization"])
